@@ -73,22 +73,75 @@ def imported_files(pid):
             todo.append(imp)
     return sorted(seen)
 
-def step_translate(res):
-    rc, out = sh([sys.executable, os.path.join(ROOT, 'tools', 'gen_from_source.py')])
+def closure_of(mods):
+    seen, todo = set(), list(mods)
+    while todo:
+        m = todo.pop()
+        if m in seen:
+            continue
+        seen.add(m)
+        path = os.path.join(LEAN, *m.split('.')) + '.lean'
+        if os.path.exists(path):
+            todo += re.findall(r'^import\s+(QuinnModel[\w\.]*)', open(path).read(), flags=re.M)
+    return seen
+
+NO_TRACE = {'hostile'}      # scenarios that emit no model trace
+
+def gen_closure(pid, cfg):
+    """Gen/<Name>.lean files this property depends on: through its theorems (import closure of its Props
+    modules) and through the model front ends (Drv/*.lean) of its correspondence components.  Source
+    anchors outside this closure are pinned to the committed baseline translation, so a change elsewhere in
+    quinn neither breaks nor silently alters this property's check."""
+    import glob
+    mods = set(f'QuinnModel.Props.{m}' for m in prop_modules(pid))
+    comps = set(c for c in cfg.get('micro', []))
+    comps |= set(b[0] for b in cfg.get('bins', []))
+    drv = {}
+    for f in glob.glob(os.path.join(LEAN, 'QuinnModel', 'Drv', '*.lean')):
+        src = open(f).read()
+        for d in re.findall(r'^def\s+([A-Za-z0-9_]+)', src, flags=re.M):
+            drv.setdefault(d, set()).add('QuinnModel.Drv.' + os.path.basename(f)[:-5])
+    alias = {'udploop': 'udp'}
+    for c in comps:
+        mods |= drv.get(alias.get(c, c), set())
+    if any(sc[0] not in NO_TRACE for sc in cfg.get('sim', [])):
+        mods.add('QuinnModel.Drv.Conn')     # these scenarios emit amp/life/timers/pathm/lossd trace ops
+    return sorted(m.split('.')[-1] for m in closure_of(mods) if m.startswith('QuinnModel.Gen.'))
+
+def step_translate(res, only=None, fallback=False):
+    cmd = [sys.executable, os.path.join(ROOT, 'tools', 'gen_from_source.py')]
+    if only is not None:
+        cmd += ['--only', ','.join(only)]
+    if fallback:
+        cmd += ['--fallback']
+    rc, out = sh(cmd)
     if rc != 0:
         infra(f'gen_from_source failed:\n{out}')
     info = json.loads(out.strip().splitlines()[-1])
     res['t1_anchors'] = info['anchors']
+    res['t1_gen_files'] = only
+    res['t1_outside_closure'] = info.get('outside_closure', [])
     return info['breaks']
 
-def step_lake(pid, res):
-    with Lock('build.lock'):
-        rc, out = sh(['lake', 'build'] + [f'QuinnModel.Props.{m}' for m in prop_modules(pid)] + ['driver'], cwd=LEAN)
+DRIVER = [os.path.join(LEAN, '.lake', 'build', 'bin', 'driver')]
+MODEL_OK = [True]
+
+def step_lake(pid, res, targets=None):
+    rc, out = sh(['lake', 'build'] + (targets or ([f'QuinnModel.Props.{m}' for m in prop_modules(pid)] + ['driver'])), cwd=LEAN)
     res['lake_rc'] = rc
     if rc != 0:
         errs = re.findall(r'error: ([^\n]+)', out)
         return [e for e in errs if 'build failed' not in e][:20], out
     return [], out
+
+def keep_driver(pid):
+    """private copy of the linked driver: a concurrent check of another property may relink it"""
+    import shutil
+    src = os.path.join(LEAN, '.lake', 'build', 'bin', 'driver')
+    dst = os.path.join(CACHE, f'driver-{pid}')
+    if os.path.exists(src):
+        shutil.copy2(src, dst + '.tmp'); os.replace(dst + '.tmp', dst)
+        DRIVER[0] = dst
 
 def step_audit(pid, res):
     """banned tokens + #print axioms of every theorem in Props/<pid>"""
@@ -129,7 +182,7 @@ def step_cargo(res):
         # harness resolves against the repository's own lock file (offline)
         if not os.path.exists(lock):
             open(lock, 'w').write(open(src).read())
-    with Lock('build.lock'):
+    with Lock('cargo.lock'):
         rc, out = sh(['cargo', 'build', '--offline', '--bins'], cwd=HARNESS)
     if rc != 0:
         return out
@@ -168,8 +221,10 @@ def diff_with_model(prefix, comp):
     """pipe <prefix>.ops to the Lean driver and compare with <prefix>.impl line by line"""
     if not os.path.exists(prefix + '.ops') or os.path.getsize(prefix + '.ops') <= 1:
         return None, 0
+    if not MODEL_OK[0]:
+        return None, 0      # the model does not build (already recorded as a break): implementation oracles only
     with open(prefix + '.ops') as fi:
-        rc, mout = sh([os.path.join(LEAN, '.lake', 'build', 'bin', 'driver')], stdin=fi)
+        rc, mout = sh([DRIVER[0]], stdin=fi)
     if rc != 0:
         infra(f'driver failed rc={rc}: {mout[-500:]}')
     ops = open(prefix + '.ops').read().splitlines()
@@ -208,7 +263,7 @@ def replay_lines(comp, lines):
         fh.write('case replay\n' + '\n'.join(lines) + '\n')
     rc, iout = sh([os.path.join(TARGET, 'debug', 'microdiff'), '--replay', f])
     with open(f) as fi:
-        rc2, mout = sh([os.path.join(LEAN, '.lake', 'build', 'bin', 'driver')], stdin=fi)
+        rc2, mout = sh([DRIVER[0]], stdin=fi)
     os.unlink(f)
     return iout.splitlines()[1:], mout.splitlines()[1:]
 
@@ -278,34 +333,42 @@ def main():
     broken = []          # (kind, detail)
     failing = []         # concrete failing inputs: dict(kind, key, what, data)
 
-    # 1. T1
-    for b in step_translate(res):
-        broken.append(('translation-break', b))
-    # 2. proofs
-    errs, lake_out = step_lake(pid, res)
-    proofs_ok = not errs
-    for e in errs:
-        broken.append(('proof-break', e))
-    # 2b. audit
-    if proofs_ok:
-        for p in step_audit(pid, res):
-            broken.append(('proof-break', p))
-        if tier == 'thorough':
-            for m in prop_modules(pid):
-                rc, out = sh(['lake', 'env', 'leanchecker', f'QuinnModel.Props.{m}'], cwd=LEAN)
-                res['leanchecker_rc'] = rc
-                if rc != 0:
-                    broken.append(('proof-break', f'leanchecker {m}: {out[-300:]}'))
-    else:
-        res['obligations'] = len(theorem_names(pid)); res['discharged'] = 0; res['theorems'] = theorem_names(pid)
+    # 1. T1 + 2. proofs (+ audit), under one lock: Gen/ and .lake are shared between concurrent checks
+    only = gen_closure(pid, cfg)
+    with Lock('build.lock'):
+        for b in step_translate(res, only):
+            broken.append(('translation-break', b))
+        errs, lake_out = step_lake(pid, res)
+        proofs_ok = not errs
+        for e in errs:
+            broken.append(('proof-break', e))
+        if proofs_ok:
+            for p in step_audit(pid, res):
+                broken.append(('proof-break', p))
+            if tier == 'thorough':
+                for m in prop_modules(pid):
+                    rc, out = sh(['lake', 'env', 'leanchecker', f'QuinnModel.Props.{m}'], cwd=LEAN)
+                    res['leanchecker_rc'] = rc
+                    if rc != 0:
+                        broken.append(('proof-break', f'leanchecker {m}: {out[-300:]}'))
+        else:
+            res['obligations'] = len(theorem_names(pid)); res['discharged'] = 0; res['theorems'] = theorem_names(pid)
+            # the proofs no longer check.  To SEARCH for a concrete failing input the model must still run:
+            # broken anchors take their baseline definition (the break stays recorded) and the driver is relinked.
+            step_translate(dict(), only, fallback=True)
+            e2, lake_out = step_lake(pid, res, ['driver'])
+            res['driver_built_with_baseline_fallback'] = not e2
+        keep_driver(pid)
     # 3. harness
     cerr = step_cargo(res)
     if cerr is not None:
         # the hooked tree does not compile: not a property verdict
         infra('cargo build of the harness against /repo failed:\n' + cerr[-3000:])
-    driver_ok = os.path.exists(os.path.join(LEAN, '.lake', 'build', 'bin', 'driver'))
-    if not driver_ok:
+    driver_ok = os.path.exists(DRIVER[0]) and res.get('lake_rc') == 0
+    if not driver_ok and not broken:
         infra('lean driver executable missing (lake build driver failed):\n' + lake_out[-2000:])
+    res['driver_ok'] = driver_ok
+    MODEL_OK[0] = driver_ok
 
     # 4/5. campaigns
     stats = {}
